@@ -65,6 +65,7 @@ static void prop_pow(pbt::Ctx& c) {
 PBT_RANDOM("gtx_integer/pow", prop_pow, 400000, 20000000, "pow(int,uint) and pow(uint,uint): small bases x exponents up to 40, 0/+-1 with exponents up to 2000, bases at the overflow edge of each exponent; judged when x^y is representable; non-trivial = |x|>=2 and y>=2");
 
 static void judge_sqrt(pbt::Ctx& c, uint64_t x) {
+	{ uint64_t r = (uint64_t)std::sqrt((double)x); while (r * r > x) --r; while ((r + 1) * (r + 1) <= x) ++r; c.cls(r * r == x ? "perfect-square" : (r * r + 2 * r == x ? "one-below-a-square" : "between-squares")); if (x > 2147483647ULL) c.cls("above-INT_MAX(uint only)"); }
 	if (x <= 2147483647ULL) {
 		int r = glm::sqrt((int)x);
 		if (r < 0 || !c18::isFloorSqrt(x, (uint64_t)r)) C18_FAIL(c, "sqrt", "int", "", 0, "sqrt(int %llu)=%d, not the floor square root (r*r <= x < (r+1)^2 fails)", (unsigned long long)x, r);
@@ -140,6 +141,7 @@ static void prop_mod_trap(pbt::Ctx& c) {
 	if (pid == 0) { int r = call_mod(args); _exit(r == 0 ? 0 : 1); }
 	if (pid < 0) { c.skip(); return; }
 	int st = 0; waitpid(pid, &st, 0);
+	c.cls(WIFSIGNALED(st) ? "child-killed-by-signal" : "child-returned");
 	if (WIFSIGNALED(st)) c.fail("mod/int/INT_MIN,-1/trap", "mod(INT_MIN, -1) terminates the process with signal %d; x - y*floor(x/y) = 0", WTERMSIG(st));
 	else if (WEXITSTATUS(st) != 0) c.fail("mod/int/INT_MIN,-1/value", "mod(INT_MIN, -1) != 0");
 }
@@ -151,6 +153,7 @@ template <class T> static void fact_one(pbt::Ctx& c, int n) {
 	if (c.verbose) c.logf("factorial(%s %d)", tn<T>(), n);
 	if (n >= 3) c.nontrivial();
 	const char* k = n <= 12 ? "n<=12" : "13<=n<=20";
+	c.cls(k);
 	T got = glm::factorial((T)n);
 	if ((c18::u128)got != want) C18_FAIL(c, "factorial", tn<T>(), k, 0, "factorial(%d)=%s, expected %s", n, D(got), c18::dec128((c18::i128)want));
 	// vec2/3/4 with neighbouring arguments (all inside the representable range: arguments <= n)
